@@ -131,7 +131,7 @@ def run_case(case, ctx):
 
 
 def budget(tier):
-	return {'quick': 20000, 'thorough': 200000}[tier]
+	return {'quick': 50000, 'thorough': 200000}[tier]
 
 
 DT_TRIPLES = [('u8', 'u8', 'u8'), ('u4', 'u4', 'u4'), ('u2', 'u2', 'u2'), ('u2', 'u4', 'u8'), ('u8', 'u2', 'i4'),
